@@ -2,10 +2,47 @@
 import json, os
 V = os.path.dirname(os.path.dirname(os.path.abspath(__file__)))
 ALL = ["C%02d" % i for i in range(1, 20)]
+COMMON_NOTE = ("Trusted: Coq 8.16.1 kernel (+vm_compute), extraction with ExtrOcamlBasic + ocaml/driver.ml, the harness exporters; the Gallina model is hand-written and tied to /repo by the "
+               "correspondence runs listed in the evidence; pandas / dask task functions enter the theorems as hypotheses and are only differential-tested. ")
+def C(tech, text, note, ref):
+    return dict(tech=tech, text=text, note=COMMON_NOTE + note, ref=ref)
 CHECKS = {
- "C10": dict(tech="Coq proof (tree_layer_correct, unbounded in partitions and split_every) + exhaustive-in-bound layer correspondence + knob-grid differential",
-             text="Theorems in coq/PropC10.v over the executable model of TreeReduce._layer (every partition count, every split_every>=2 or False); model tied to /repo by comparing the real _layer dict with the extracted model for every (n, split_every) in the bound, and the property's own oracle (knob grid vs knob-free baseline) on the real implementation.",
-             note="Trusted: Coq kernel, extraction (ExtrOcamlBasic) + ocaml/driver.ml; pandas chunk/combine/aggregate functions enter as the hypothesis agg_combine (proved for sum/count/min/max/len over Z with NA, differential-tested otherwise).", ref="DESIGN.md section 6 C10"),
+ "C01": C("Coq proof: verified rewrite-step checker (rule_ok_sound, step_in_context_sound) + OR-factoring + translation validation of every logged real rewrite step; optimized-vs-unoptimized differential on generated programs",
+          "Theorems over the plan language of coq/Plan.v: every rewrite step accepted by the verified checker preserves the value of the whole plan on all inputs and never turns a defined query into an error; every _simplify_up/_simplify_down step of the fragment logged from the real optimizer is exported and fed to the extracted checker on every run (unjustified step = broken tie, then the two plans are executed to find a failing input). Partial: rule families outside the fragment are covered by the differential only.",
+          "den of Plan.v models pandas on integer-valued data with missing values.", "DESIGN.md section 6 C01"),
+ "C03": C("Coq proof: or_factoring_sound (all And/Or trees, Kleene 3-valued), dnf_sound / refuted corner, filter-squash schema S10; exhaustive-in-bound correspondence of rewrite_filters; scenario grid vs pandas",
+          "OR-factoring proved for every predicate tree and every three-valued valuation and compared exhaustively (all trees up to 4/5 leaves) with the real rewrite_filters; reader filters in DNF proved equal to pandas for !=-free predicates (the != corner is a proved refutation = known finding D7); filter squashing validated step-by-step by the verified checker; filters crossing every operator kind x predicate x consumer x nulls and the full join table are compared with pandas.",
+          "Structural equality stands for _name equality (C08).", "DESIGN.md section 6 C03"),
+ "C04": C("Coq proof: projection-pushdown schemas S1-S9 of the verified step checker (values, labels, order, definedness) + schema_sound; translation validation of logged steps; scenario grid and widening differential",
+          "Every projection-pushdown step of the fragment produced by the real optimizer is validated by the verified checker (theorems: value, labels and order preserved, no column missing/duplicated, also inside a context); operators outside the fragment (merge suffixes, prefix/suffix, groupby/sort/shuffle keys ...) by an operator x selection x consumer grid against pandas; adding unused source columns must not change results.",
+          "", "DESIGN.md section 6 C04"),
+ "C05": C("Coq proof: determinacy / progress / complete_runs_agree over arbitrary dependency-respecting schedules + disk_route; per-graph certificates by verified wf_check; randomized and adversarial schedules with argument fingerprints on the real graphs",
+          "Determinacy and deadlock-freedom are proved for every well-formed graph and every schedule; the hypothesis (pure task functions) is observed on the real system: each workload graph is executed under FIFO/LIFO/reverse/random topological orders with fingerprints of every task argument before and after the call, and under the threaded scheduler with up to 16 threads.",
+          "Real thread interleavings, the GIL, partd I/O: observed only.", "DESIGN.md section 6 C05"),
+ "C06": C("Coq proof (partial): length push-down schema S13, partition counts of repartition layers, divisions lemmas (Divisions.v); differential: reported npartitions/divisions/lengths vs every computed partition",
+          "Divisions/npartitions of ~35 derivations x 4 index dtypes (duplicates straddling borders) x partitionings and of every variable of generated programs are compared, at logical/optimized/fused stage, with the index range and count of each computed partition; len/shape/size from metadata vs computed; theorems cover the pure division-arithmetic rules.",
+          "sorted_division_locations (dask) is an oracle.", "DESIGN.md section 6 C06"),
+ "C07": C("Coq proof: schema_sound and schema preservation of every accepted rewrite step (Plan.v); differential: _meta vs each computed partition on dtype mixes incl. empty / all-null partitions",
+          "For the fragment: the static schema equals the schema of the computed value and optimization never changes it (proved). For everything else: container kind, labels, order, names and dtype kinds of _meta vs every computed partition and the final result for ~65 derivations over int/float/bool/str/category/datetime columns, at every stage.",
+          "_meta derivation by running pandas on stand-ins is not modelled.", "DESIGN.md section 6 C07"),
+ "C09": C("Coq proof: wf_check soundness (closed, acyclic, unique keys, outputs computable) as per-graph certificate; pairwise layer conflicts, planner-object scan, serialization guard on every real graph",
+          "Every graph of generated programs x 6 stages plus imported / partition-filtered / nested-fused sources is exported with a candidate topological order and certified by the extracted verified wf_check; layers of all expressions are compared pairwise for conflicting tasks under one key; task tuples are scanned for expression/collection objects and pickled under dask-expr-no-serialize.",
+          "Key extraction from task tuples follows dask.core semantics (harness/graphs.py).", "DESIGN.md section 6 C09"),
+ "C10": C("Coq proof (tree_layer_correct, unbounded in partitions and split_every; staged_route unbounded in max_branch) + exhaustive-in-bound layer correspondence + knob-grid differential",
+          "Theorems in coq/PropC10.v over the executable model of TreeReduce._layer (every partition count, every split_every>=2 or False); model tied to /repo by comparing the real _layer dict with the extracted model for every (n, split_every) in the bound, and the property's own oracle (knob grid vs knob-free baseline) on the real implementation.",
+          "pandas chunk/combine/aggregate functions enter as the hypothesis agg_combine (proved for sum/count/min/max/len over Z with NA).", "DESIGN.md section 6 C10"),
+ "C12": C("Coq proof: simple_route, staged_route (unbounded: all n_in<=n_out, branch factors, stage counts, output subsets, regroup step), disk_route, shuffle_permutation + exhaustive-in-bound layer correspondence + data oracle",
+          "All four routing theorems are proved without bounds over the executable model of SimpleShuffle/TaskShuffle/DiskShuffle._layer; the real layer dict equals the model for all (n_in<=n_out<=N) x max_branch x output subsets; on real data: permutation, co-location and identical partition numbers across frames with int/float/int32/categorical/index keys.",
+          "shuffle_group/partd/pandas hashing are modelled by `piece` (rows grouped by (target mod np)//k^stage mod k); stage arithmetic uses floats: contract-checked.", "DESIGN.md section 6 C12"),
+ "C13": C("Coq proof: plan_ok_sound (unbounded), planner correct unbounded for strictly increasing divisions, kernel-checked for all vectors over 8 values (484128 triples) otherwise; fewer/more unbounded; exhaustive-in-bound layer correspondence + data oracle + per-run certification of every real plan",
+          "The model mirrors RepartitionDivisions._layer line by line and equals the real dict on every (old, new, force) over the domain; every real plan is additionally certified by the extracted verified plan_ok; real computed partitions are compared with their target ranges exhaustively; count-based paths proved for all boundary lists meeting a contract that is checked on the real float arithmetic.",
+          "boundary_slice/_concat/split_evenly are hypotheses; float boundary arithmetic and np.interp: contract-checked.", "DESIGN.md section 6 C13"),
+ "C14": C("Coq proof: fused_task_eq (any nesting depth, DAG shape, broadcast members/deps, every partition index) + refuted wrong binding order; structural correspondence of every real Fused._task; valid_group certificate; fuse-vs-unfused differential per partition",
+          "The sub-graph built by Fused._task equals the model for every fused node met (generated programs + targeted nested/broadcast/shared shapes) and every real group is certified by valid_group, the hypothesis of the proved theorem; npartitions, divisions, meta and each output partition are compared between fuse=True and fuse=False.",
+          "dask.core.get on the inner dict is modelled by exec_fused.", "DESIGN.md section 6 C14"),
+ "C19": C("Coq proof: driver fixpoint / idempotence / termination-from-measure theorems (Drivers.v) and a proved strictly decreasing measure for every accepted rewrite step (PlanMeasure.v); observation of determinism across interpreters and hash seeds",
+          "A converged driver result is a fixed point and re-optimizing it returns it unchanged (proved for any pass function); every real step of the fragment satisfies the strict schema whose measure provably decreases (also in context); determinism and idempotence of the real optimize() are observed on generated programs, across 4 fresh interpreters with different PYTHONHASHSEED.",
+          "That simplify_once is a deterministic function of the plan is observed, not proved; joint measure for rule families outside the fragment is open (partial).", "DESIGN.md section 6 C19"),
 }
 def main():
     checks = []
